@@ -85,6 +85,7 @@ def oracle (r : Rule) (c : Cond) (univ0 : List (Int × Int)) (out : Sexp) : Stri
       | none => "ok"
       | some _ => "viol unsound-route"
   | .atom "panic" => "viol planner-panic"
+  | .list [.atom "not-a-shard-plan"] => "viol sharded-statement-not-planned-as-sharded"
   | _ => "viol unexpected-output"
 
 def handle (args : List Sexp) : String :=
